@@ -111,7 +111,8 @@ def xml_member(gen, name, t, v, ns, pref):
             # (the marker's prefix is bound on the element itself, always with the same literal: what it denotes is decided by
             #  the binding in scope at that element, never by the text of the attribute)
             pref(t.get('ns', gen.tns))
-            xt = ' xmlns:p="%s" xsi:type="p:%s"' % (t.get('ns', gen.tns), t.get('tname', t['name']))
+            # (the literal is one a server is likely to use for a namespace of its OWN choosing: the document's binding decides)
+            xt = ' xmlns:s0="%s" xsi:type="s0:%s"' % (t.get('ns', gen.tns), t.get('tname', t['name']))
         return '%s<%s%s%s>%s</%s>' % (_between(), q, xt, xml_attrs(t, v), xml_fields(gen, t, v, pref), q)
     if k == 'arr':
         it = t['of']
